@@ -52,6 +52,10 @@ add("C19", "enum", "bounded-exhaustive enumeration of configurations, round-trip
     "Every string of length <=3 (<=4 thorough) over a 13-symbol alphabet (quotes, backslash, newline, tab, CR, NUL, #, =, non-ASCII) in each field separately, all pairs/triples of fields with shorter strings, every ASCII character in every field, path x version tables incl. versioned paths, all subsets of <=3 of 21 requirement keys, ignore lists: WriteConfigFile then LoadConfigFile must give back the configuration, and writing it again identical bytes. Failing configurations are delta-debugged to a cause signature.",
     "Valid configurations only (canonical semver versions, clean paths), as the property quantifies.", "DESIGN.md section 5 C19")
 
+add("C16", "enum", "bounded-exhaustive enumeration of value pairs through the real Diff (and a route-limit-4 build), edit-script replay oracle",
+    "All ordered pairs of int sequences over {0,1,2} of length <=4 (5) as lists/tuples/mixed, binary lists to length 6 (8), strings and bytes over {a,b,c} to length 4 (5), nested sequences, all pairs of dicts over 3 keys x 5 (8) values, a 59-value cross-type pool, deep chains, and real-size pairs that cross the 2,000,000-point route limit; second pass on a build with the route limit scaled to 4. Oracle: nil diff <=> starlark.Equal; Old()/New() are the arguments in order; replaying the edits rebuilds old and new (recursively through nested diffs); mapping diffs have an edit exactly for added/removed/changed keys.",
+    "Trusts the replay oracle and starlark.Equal. The scaled pass differs from /repo only in defaultRouteSize (vtool -const).", "DESIGN.md section 5 C16")
+
 NA = {
 }
 for i in range(1, 21):
